@@ -3,9 +3,16 @@ CONSTANTS MaxItems = 2
  MaxSub = 2
  MaxBlocks = 3
  MaxDepth = 2
+ MaxLeaves = 4
+ Lean = TRUE
  Budget = 1
  IdOffs <- IdOffs1
  Rules = {"assume", "substitution", "subproof"}
  Emit = TRUE
+INVARIANT RefSound
+INVARIANT RefGapFree
+INVARIANT RefGapCount
+INVARIANT RefModes
+INVARIANT RefPositions
 INVARIANT RefDecides
 CHECK_DEADLOCK FALSE
